@@ -88,3 +88,50 @@ def ulp_close(a, b, n=4, scale=None):
         return False
     s = np.maximum(np.abs(a), np.abs(b)) if scale is None else scale
     return bool(np.all(np.abs(a - b) <= n * EPS * s))
+
+
+# --------------------------------------------------------------------------
+# exact convex hulls (C16, C01)
+# --------------------------------------------------------------------------
+def _cross(o, a, b):
+    return (a[0] - o[0]) * (b[1] - o[1]) - (a[1] - o[1]) * (b[0] - o[0])
+
+
+def convex_hull(points):
+    """Andrew's monotone chain on exact numbers (ints or Fractions).  Returns
+    the hull vertices in counter-clockwise order without collinear points;
+    fewer than 3 vertices means a degenerate (collinear) set."""
+    pts = sorted(set((p[0], p[1]) for p in points))
+    if len(pts) <= 2:
+        return pts
+    lower = []
+    for p in pts:
+        while len(lower) >= 2 and _cross(lower[-2], lower[-1], p) <= 0:
+            lower.pop()
+        lower.append(p)
+    upper = []
+    for p in reversed(pts):
+        while len(upper) >= 2 and _cross(upper[-2], upper[-1], p) <= 0:
+            upper.pop()
+        upper.append(p)
+    return lower[:-1] + upper[:-1]
+
+
+def hull_classify(p, hull):
+    """('in' | 'on' | 'out', margin) for point p against a ccw hull with >= 3
+    vertices; margin = smallest distance (float) to the hull's supporting
+    lines for 'in', the largest violation for 'out'."""
+    worst = None
+    state = "in"
+    for k in range(len(hull)):
+        a, b = hull[k], hull[(k + 1) % len(hull)]
+        c = _cross(a, b, p)
+        length = math.hypot(float(b[0] - a[0]), float(b[1] - a[1]))
+        dist = float(c) / length
+        if c < 0:
+            state = "out"
+        elif c == 0 and state != "out":
+            state = "on"
+        if worst is None or dist < worst:
+            worst = dist
+    return state, worst
